@@ -31,9 +31,9 @@ func init() {
 	})
 }
 
-type xy = [2]float64
+type pt2 = [2]float64
 
-func ringC(pts []xy, l geom.Layout, f ref.Filler) []ref.C {
+func ringC(pts []pt2, l geom.Layout, f ref.Filler) []ref.C {
 	out := make([]ref.C, len(pts))
 	for i, p := range pts {
 		c := make(ref.C, l.Stride())
@@ -46,16 +46,16 @@ func ringC(pts []xy, l geom.Layout, f ref.Filler) []ref.C {
 	return out
 }
 
-func closed(pts ...xy) []xy { return append(append([]xy{}, pts...), pts[0]) }
+func closed(pts ...pt2) []pt2 { return append(append([]pt2{}, pts...), pts[0]) }
 
 func c09Run(c *engine.Ctx) {
 	var cases []*ref.G
 	add := func(g *ref.G) { cases = append(cases, g) }
-	grid := func(n int) []xy {
-		var g []xy
+	grid := func(n int) []pt2 {
+		var g []pt2
 		for x := 0; x < n; x++ {
 			for y := 0; y < n; y++ {
-				g = append(g, xy{float64(x), float64(y)})
+				g = append(g, pt2{float64(x), float64(y)})
 			}
 		}
 		return g
@@ -63,7 +63,7 @@ func c09Run(c *engine.Ctx) {
 	g4 := grid(4)
 	g3 := grid(3)
 	exhaustLayouts := []geom.Layout{geom.XY, geom.XYZM}
-	addRing := func(pts []xy) {
+	addRing := func(pts []pt2) {
 		for _, l := range exhaustLayouts {
 			r := ringC(pts, l, ref.Counter())
 			add(&ref.G{Kind: ref.LinearRing, Layout: l, C1: r})
@@ -76,11 +76,11 @@ func c09Run(c *engine.Ctx) {
 			for _, d := range g4 {
 				addRing(closed(a, b, d))
 				for _, l := range exhaustLayouts {
-					add(&ref.G{Kind: ref.LineString, Layout: l, C1: ringC([]xy{a, b, d}, l, ref.Counter())})
+					add(&ref.G{Kind: ref.LineString, Layout: l, C1: ringC([]pt2{a, b, d}, l, ref.Counter())})
 				}
 			}
 			for _, l := range exhaustLayouts {
-				add(&ref.G{Kind: ref.LineString, Layout: l, C1: ringC([]xy{a, b}, l, ref.Counter())})
+				add(&ref.G{Kind: ref.LineString, Layout: l, C1: ringC([]pt2{a, b}, l, ref.Counter())})
 			}
 		}
 	}
@@ -98,15 +98,15 @@ func c09Run(c *engine.Ctx) {
 		}
 	}
 	// structure menus
-	ringMenu := [][]xy{
+	ringMenu := [][]pt2{
 		{},
-		closed(xy{0, 0}, xy{3, 0}, xy{0, 2}),
-		closed(xy{1, 1}, xy{1, 2}, xy{2, 1}),
-		closed(xy{0, 0}, xy{2, 1}, xy{3, 3}, xy{1, 2}),
+		closed(pt2{0, 0}, pt2{3, 0}, pt2{0, 2}),
+		closed(pt2{1, 1}, pt2{1, 2}, pt2{2, 1}),
+		closed(pt2{0, 0}, pt2{2, 1}, pt2{3, 3}, pt2{1, 2}),
 		{{1, 2}},
 		{{2, 3}, {2, 3}},
 	}
-	lineMenu := [][]xy{{}, {{1, 1}}, {{0, 0}, {3, 1}}, {{1, 0}, {2, 3}, {0, 1}}}
+	lineMenu := [][]pt2{{}, {{1, 1}}, {{0, 0}, {3, 1}}, {{1, 0}, {2, 3}, {0, 1}}}
 	polyMenu := [][]int{{}, {0}, {1}, {3, 2}, {0, 1}, {1, 0}, {4}, {5, 1}}
 	idx6 := []int{0, 1, 2, 3, 4, 5}
 	idx8 := []int{0, 1, 2, 3, 4, 5, 6, 7}
